@@ -136,10 +136,12 @@ def lines_of(v):
 def text_forms(v):
     """Acceptable renderings of element text `v` under PLAIN: verbatim; multi-line text (or text the
     formatter sets on its own lines) is written line by line, each line verbatim, between newlines."""
+    # (the line break after the text belongs to the formatter: it is written before a closing tag on its own
+    # line, not when child elements follow -- C12's business, either layout carries the text verbatim)
     if RE_BREAK.search(v):
         body = '\n'.join(lines_of(v))
-        return [body, '\n' + body + '\n']
-    return [v, '\n' + v + '\n'] if v else ['']
+        return [body, '\n' + body + '\n', '\n' + body]
+    return [v, '\n' + v + '\n', '\n' + v] if v else ['']
 
 
 def attr_value_form(v):
